@@ -878,3 +878,44 @@ func TestArbitrary(t *testing.T) {
 		})
 	})
 }
+
+// TestConcurrentReaders: two or three bundle.Read tasks over their own
+// (possibly damaged) files run under the cooperative scheduler, parked at
+// every Read of their chunked disk; each result is judged against its own file.
+func TestConcurrentReaders(t *testing.T) {
+	rapid.Check(t, func(t *rapid.T) {
+		core.Run(t, "bundle/concurrent-readers", func(c *core.Ctx) {
+			n := c.Int("ntasks", 2, 3)
+			blobs := make([][]byte, n)
+			results := make([]*bundle.Bundle, n)
+			errs := make([]error, n)
+			var tasks []func(yield func())
+			for i := 0; i < n; i++ {
+				i := i
+				data, _ := validBundleBytes(c, 3)
+				if data == nil {
+					return
+				}
+				if c.Chance("damaged", 1, 3) {
+					data = c.CorruptBlob("blob", data, nil)
+				}
+				blobs[i] = data
+				sr := c.NewReader(fmt.Sprintf("disk%d", i), data, core.ReaderPlan{ErrAt: -1, Mode: 1, Chunk: c.PickInt("chunk", 7, 64, 511, 4096)})
+				tasks = append(tasks, func(yield func()) {
+					sr.OnCall = yield
+					results[i], errs[i] = bundle.Read(sr)
+				})
+			}
+			sched, panics := c.RunTasks("sched", tasks)
+			c.Event("schedule %s", sched)
+			for i := range blobs {
+				var pi *core.PanicInfo
+				if panics[i] != nil {
+					pi = &core.PanicInfo{Value: fmt.Sprint(panics[i]), Site: "bundle.Read(concurrent)"}
+				}
+				judgeRead(c, blobs[i], results[i], errs[i], pi, 0, "bundle.Read/concurrent")
+			}
+			c.Sig("%s", sched)
+		})
+	})
+}
